@@ -34,7 +34,22 @@ def run(pid, tier, replay=None):
         ck.violation("replay:kernel%d" % d["k"], dict(d, what="result differs from the specification's expected array or guard cell overwritten"))
     if summ["events"] != res.generated - res.init_states:
         raise Broken("emitted %d cases, ran %d" % (res.generated - res.init_states, summ["events"]))
-    files = sorted(glob.glob(sc.path("g-*.ndjson")))
+    # the same cases in the float and long double builds; kernels that only move data get contents that need the whole
+    # mantissa of the element type (integer code times 1 + 2^-20 resp. 1 + 2^-60), reported in units of that factor
+    for real in (4, 16):
+        exe_w = vlib.cc_build(sc.path("mat_h%d" % real), [os.path.join(vlib.HARNESS, "mat_h.c")] + vlib.repo_src("linalg.c", "a.c"), sc, real=real)
+        rw = vlib.run_harness([exe_w, out, sc.path("g%d" % real), "4"], timeout=1200)
+        mw = re.search(r"^SUMMARY (\{.*\})$", rw.stdout or "", re.M)
+        if rw.returncode != 0 or not mw:
+            if rw.returncode in (97, 98, 99, -6, -11) or "Sanitizer" in (rw.stderr or ""):
+                ck.violation("crash:kernel", {"what": "sanitizer abort in a kernel (real width %d)" % real, "stderr": (rw.stderr or "")[-1500:]})
+                continue
+            raise Broken("harness (real width %d) failed rc=%s: %s" % (real, rw.returncode, (rw.stderr or "")[-1500:]))
+        for mm in re.finditer(r"^MISMATCH (\{.*\})$", rw.stdout or "", re.M):
+            d = json.loads(mm.group(1))
+            ck.violation("replay:kernel%d:width%d" % (d["k"], real), dict(d, what="result differs from the specification's expected array (real width %d)" % real))
+        summ["events"] += json.loads(mw.group(1))["events"]
+    files = sorted(glob.glob(sc.path("g*-*.ndjson")))
     nev, bad = vlib.validate_collect(os.path.join(SPECDIR, "MatTrace.tla"), os.path.join(SPECDIR, "MatTrace.cfg"), files, sc)
     for f, idx, ev in bad:
         ck.violation("trace:kernel%d" % ev.get("k"), {"what": "TLC rejected the recorded result", "event": ev})
